@@ -251,6 +251,12 @@ def native(ctx, srcs=None):
     rep, det = native_purity(ctx, srcs)
     if rep:
         ctx.report('C18/native', f'real build is not a function of its input: {det.get("first")}', det, True, det)
+    rep, det = native_sequence(ctx)
+    ctx.sample({'native sequence run': {k: v for k, v in det.items() if k != 'first_difference'}})
+    if rep:
+        ctx.report('C18/sequence', f'real build: a call returns something else after other calls ran in the same process: {det["first_difference"]}', det, True, det)
+    else:
+        ctx.replayed_ok += 1
     rep, det = native_history(ctx, open('/repo/wgsl_to_wgpu/src/data/fragment_simple.wgsl').read())
     ctx.sample({'native history run': det})
     if rep:
@@ -345,6 +351,39 @@ def native_history(ctx, src):
     finally:
         import shutil
         shutil.rmtree(d, ignore_errors=True)
+
+
+SEQ_SRCS = ['struct P { a: mat4x4<f32>, b: vec4<f32> }\n@group(0) @binding(0) var<uniform> p: P;\n@fragment fn f() { let x = p.b; }\n',
+            'struct Q { x: f32, y: f32 }\n@group(0) @binding(0) var<uniform> q: Q;\nstruct R { m: mat2x2<f32> }\n@group(0) @binding(1) var<storage, read> r: R;\n@compute @workgroup_size(1) fn c() { let x = q.x; }\n',
+            'struct V { @location(0) p: vec3<f32>, @location(1) n: vec3<f32> }\n@group(0) @binding(0) var<uniform> v: V;\n@vertex fn vs(i: V) -> @builtin(position) vec4<f32> { return vec4<f32>(i.p, 1.0); }\n']
+SEQ_OPTS = [{'derive_bytemuck_host_shareable': True}, {'derive_encase_host_shareable': True, 'matrix_vector_types': 'Glam'},
+            {'derive_bytemuck_host_shareable': True, 'derive_bytemuck_vertex': True, 'derive_serde': True, 'matrix_vector_types': 'Nalgebra'}]
+
+
+def native_sequence(ctx):
+    """real build: calls on DIFFERENT shaders / options made one after another in one process (same thread) must each return what a
+    fresh process returns for the same call - state kept between calls (caches keyed by handle index, thread-locals ...) shows up here"""
+    steps = []
+    for o in SEQ_OPTS:
+        for src in SEQ_SRCS + SEQ_SRCS[::-1]:
+            steps.append({'wgsl': src, 'options': o})
+    o = Oracle()
+    r = o.seq(steps)
+    o.close()
+    outs = r.get('outputs', [])
+    det = {'calls_in_one_process': len(steps), 'first_difference': None}
+    fresh = {}
+    for st, got in zip(steps, outs):
+        k = (st['wgsl'], _json.dumps(st['options'], sort_keys=True))
+        if k not in fresh:
+            fresh[k] = fresh_process_outputs(ctx, st['wgsl'], st['options'], 1)[0]
+        want = _json.loads(fresh[k]) if fresh[k].strip() else {'crash': True}
+        if got != want and det['first_difference'] is None:
+            a_, b_ = str(got.get('ok', got)), str(want.get('ok', want))
+            i = next((j for j, (x, y) in enumerate(zip(a_, b_)) if x != y), min(len(a_), len(b_)))
+            det['first_difference'] = {'wgsl': st['wgsl'], 'options': st['options'], 'position_in_sequence': steps.index(st),
+                                       'in_sequence': a_[max(0, i - 60):i + 60], 'fresh_process': b_[max(0, i - 60):i + 60]}
+    return len(outs) != len(steps) or det['first_difference'] is not None, det
 
 
 def mentions_hash(f):
